@@ -24,6 +24,13 @@ harness_app tls_matrix real handshakes over an in-memory duplex: the application
                        server) let clients of the retired and of the new generation connect before the rotation,
                        between rotation and reload, and after the reload. Client side: one client process whose roots
                        file is replaced in place (`CSCRIPT` lines, ClientFollowsRoots, negative control "staleroots")
+                       RETURNING CLIENTS THAT RESUME: the machine carries the tickets clients hold (issued under an identity
+                       and a client-CA generation); a connect may offer them (ConnectWith / Honours / Usable); a ticket is
+                       worth something only under the configuration that issued it (Fresh, Authenticated,
+                       JudgedAsConfigured over every offer, TicketsOfThisConfiguration; negative control "sharedcache": one
+                       session cache for the life of the process). Scripts of returning clients (kinds res / rres: connects
+                       with "keep": a raw rustls client of the harness whose ClientConfig - its resumption store - is kept
+                       for the whole script, TLS 1.3 and TLS 1.2) run on the duplex and through server_main + SIGUSR1
 spec/TlsTrace.tla      TLC validates every logged line; unmatched lines come back with a signature
 
 A rejected line whose signature is an `open` entry of KNOWN_FINDINGS.json (`"property":"C17","sig":...`) is printed
@@ -48,7 +55,12 @@ TIERS = {
                   fail_bounds="failed reloads (real server, without mutual TLS): 2 connections x 1 failed reload (key file unusable "
                               "when SIGUSR1 arrives) x 1 reload x <= 1 use",
                   cli_bounds="client side: 3 connections (server certificate issued by any generation of the roots CA or by "
-                             "another CA) x 1 replacement of the roots file in place"),
+                             "another CA) x 1 replacement of the roots file in place",
+                  res_tls=("1.3", "1.2"),
+                  res_bounds="returning clients that resume (a raw rustls client per client certificate whose ClientConfig is kept "
+                             "for the whole script; every script once with TLS 1.3 and once with TLS 1.2 clients), duplex and real "
+                             "server alike: 2 connections x 1 reload x <= 1 use without mutual TLS; with mutual TLS also 1 rotation "
+                             "of the client CA, each connection presenting the certificate of any generation of the CA"),
     "thorough": dict(cfg="MC_TlsAuth", npki=8, script_sets=2, algs="p256,p384,ed25519,rsa2048", real_procs=8, script_procs=4,
                      bounds="<= 3 connections x <= 3 reloads x <= 3 uses, with and without mutual TLS",
                      real_bounds="real server (server_main + SIGUSR1): <= 3 connections, each presenting the trusted client "
@@ -59,7 +71,13 @@ TIERS = {
                      fail_bounds="failed reloads (real server, with and without mutual TLS): 2 connections x 2 failed reloads (key file "
                                  "unusable when SIGUSR1 arrives) x 2 reloads x <= 1 use",
                      cli_bounds="client side: 4 connections (server certificate issued by any generation of the roots CA or by "
-                                "another CA) x 2 replacements of the roots file in place"),
+                                "another CA) x 2 replacements of the roots file in place",
+                     res_tls=("1.3", "1.2"),
+                     res_bounds="returning clients that resume (a raw rustls client per client certificate whose ClientConfig is "
+                                "kept for the whole script; every script once with TLS 1.3 and once with TLS 1.2 clients): duplex 3 "
+                                "connections x 2 reloads x <= 1 use, real server 3 connections x 1 reload x <= 1 use, without mutual "
+                                "TLS; with mutual TLS also 1 rotation of the client CA, each connection presenting the certificate of "
+                                "any generation of the CA"),
 }
 NAMEKINDS = "localhost,dns,ip4,ip6"
 NEG_CONTROLS = {"MC_TlsAuth_neg_stale": "Fresh", "MC_TlsAuth_neg_inplace": "Undisturbed",
@@ -77,7 +95,14 @@ NEG_CONTROLS = {"MC_TlsAuth_neg_stale": "Fresh", "MC_TlsAuth_neg_inplace": "Undi
                 # a server that does not react to reload requests any more once one of them failed
                 "MC_TlsAuth_neg_deaf": "Fresh",
                 # a client that keeps the roots it read first although its roots file was replaced in place
-                "MC_TlsAuth_neg_staleroots": "ClientFollowsRoots"}
+                "MC_TlsAuth_neg_staleroots": "ClientFollowsRoots",
+                # a server that honours the tickets of any earlier configuration (one session cache for the life of the
+                # process): a returning client of the retired CA is admitted by resumption after rotation + reload
+                # (real-server scripts), a returning client keeps seeing the replaced certificate, the same observable
+                # before any connection is made (whatever is offered), and as a statement about the tickets
+                "MC_TlsAuth_neg_sharedcache": "Authenticated", "MC_TlsAuth_neg_sharedcache_id": "Fresh",
+                "MC_TlsAuth_neg_sharedcache_obs": "JudgedAsConfigured",
+                "MC_TlsAuth_neg_sharedcache_cfg": "TicketsOfThisConfiguration"}
 OUT_RE = re.compile(r'^<<"(CASE|SCRIPT|RSCRIPT|CSCRIPT)", "(.*)">>$')
 HEADERS = {"script": "step", "rscript": "rstep", "cscript": "cstep"}
 BAD_RE = re.compile(r'^<<"BAD", (\d+), "([^"]*)", "(.*)">>$')
@@ -122,9 +147,10 @@ def enumerate_cases(cfg):
         return False
     def rotates(s):
         return any(o["op"] == "rotate" for o in s["ops"])
-    # (the guards written for the scripts without rotation keep looking at those only)
-    plain = [s for s in scripts if not rotates(s)]
-    rplain = [s for s in rscripts if not rotates(s) and not any(o["op"] == "botch" for o in s["ops"])]
+    # (the guards written for the scripts without rotation keep looking at those only, the ones written for the rotation
+    # scripts at the scripts without returning clients)
+    plain = [s for s in scripts if not rotates(s) and not keeps(s)]
+    rplain = [s for s in rscripts if not rotates(s) and not keeps(s) and not any(o["op"] == "botch" for o in s["ops"])]
     n_car = sum(1 for s in plain if after_reload(s, "connect"))
     n_uar = sum(1 for s in plain if after_reload(s, "use"))
     if n_car == 0 or n_uar == 0:
@@ -151,15 +177,20 @@ def enumerate_cases(cfg):
     )
     if not all(rstats.values()):
         raise ToolError(f"vacuous real-server scripts: {rstats}")
-    for s in rscripts + [x for x in scripts if rotates(x)]:
+    for s in rscripts + [x for x in scripts if rotates(x) or keeps(x)]:
         for o, e in zip(s["ops"], s["exp"]):
             if o["op"] == "connect" and (o["conn"] > 0) != (e["outcome"] == ["ok"]):
                 raise ToolError(f"script: slot and expectation disagree in {s}")
     # rotation of the client CA in place: what the scripts must contain to say anything about it
-    rot = dict(duplex=rotation_stats(scripts), real=rotation_stats(rscripts))
+    rot = dict(duplex=rotation_stats([x for x in scripts if not keeps(x)]), real=rotation_stats([x for x in rscripts if not keeps(x)]))
     for k, v in rot.items():
         if not all(v.values()):
             raise ToolError(f"vacuous rotation scripts ({k}): {v}")
+    # returning clients that resume
+    res = dict(duplex=resume_stats(scripts), real=resume_stats(rscripts))
+    for k, v in res.items():
+        if not all(v.values()):
+            raise ToolError(f"vacuous scripts of returning clients ({k}): {v}")
     # failed reloads
     fstats = failed_reload_stats(rscripts)
     if not all(fstats.values()):
@@ -172,7 +203,47 @@ def enumerate_cases(cfg):
         raise ToolError(f"vacuous client-side scripts: {cstats}")
     return cells, scripts, rscripts, cscripts, dict(distinct=r["distinct"], generated=r["states"], wall=r["wall"], by=by,
                                                     connect_after_reload=n_car, use_after_reload=n_uar, real=rstats,
-                                                    rotation=rot, client=cstats, failed_reload=fstats)
+                                                    rotation=rot, client=cstats, failed_reload=fstats, resume=res)
+
+
+def keeps(s):
+    """a script of returning clients (connects with keep = true)"""
+    return any(o.get("keep") for o in s["ops"])
+
+
+def resume_stats(scripts):
+    """Number of scripts of returning clients that contain each of the situations the ticket invariants speak about."""
+    st = collections.Counter(scripts_with_returning_clients=0, may_resume_within_generation=0, may_resume_after_reload_with_new_ticket=0,
+                             ticket_from_before_reload_must_be_full_handshake=0, retired_client_with_ticket_refused_after_reload=0,
+                             same_without_mutual_tls=0, use_after_reload_of_returning_clients_connection=0)
+    for s in scripts:
+        if not keeps(s):
+            continue
+        st["scripts_with_returning_clients"] += 1
+        seen, reloaded, made_before = set(), False, set()
+        made = set()
+        for o, e in zip(s["ops"], s["exp"]):
+            if o["op"] == "reload":
+                reloaded = True
+                made_before = set(made)
+            elif o["op"] == "connect":
+                made.add(o["conn"])
+                ok = e["outcome"] == ["ok"]
+                if e["mayResume"]:
+                    seen.add("may_resume_after_reload_with_new_ticket" if reloaded else "may_resume_within_generation")
+                if e["holds"] and not e["mayResume"] and ok:
+                    seen.add("ticket_from_before_reload_must_be_full_handshake")
+                    if not s["mtls"]:
+                        seen.add("same_without_mutual_tls")
+                if e["holds"] and not e["mayResume"] and not ok:
+                    seen.add("retired_client_with_ticket_refused_after_reload")
+                if e["mayResume"] and not e["holds"]:
+                    raise ToolError(f"script: resumption allowed without a ticket in {s}")
+            elif o["op"] == "use" and reloaded and o["conn"] in made_before:
+                seen.add("use_after_reload_of_returning_clients_connection")
+        for k in seen:
+            st[k] += 1
+    return dict(st)
 
 
 def failed_reload_stats(rscripts):
@@ -278,6 +349,21 @@ def rotation_situations(kind, rec, served):
     return out
 
 
+def resume_situations(kind, rec, served):
+    """What a logged connect line of a returning client shows of resumption (as observed, nothing is judged here)."""
+    if rec.get("op") != "connect" or not rec.get("keep"):
+        return []
+    v = f"{kind}:tls{rec.get('tls')}:"
+    out = [v + "connect_of_returning_client"]
+    if rec.get("stored"):
+        out.append(v + "tickets_stored")
+    if rec.get("resumed"):
+        out.append(v + "resumed")
+    if rec.get("offered") and not rec.get("resumed"):
+        out.append(v + ("offered_but_full_handshake_admitted" if served else "offered_but_refused"))
+    return out
+
+
 def client_stats(cscripts):
     st = collections.Counter(retired_roots_server_refused=0, new_roots_server_accepted=0, server_accepted_before_rotation=0,
                              other_ca_server_refused_after_rotation=0)
@@ -352,6 +438,25 @@ def run_split(bin_path, items, work, out, seed, nsets, procs, algs):
         f"{sum(1 for _ in open(out))} lines ({time.time() - t:.1f}s)")
 
 
+def with_tls(scripts, versions):
+    """The scripts as executed: one of returning clients once per TLS version (the protocol version its clients speak is a
+    parameter of the execution, like the PKI set), any other once."""
+    out = []
+    for s in scripts:
+        if keeps(s):
+            out += [dict(s, tls=v) for v in versions]
+        else:
+            out.append(s)
+    return out
+
+
+def script_item(ev, i, s):
+    it = dict(ev=ev, id=i, mtls=s["mtls"], ops=s["ops"])
+    if s.get("tls"):
+        it["tls"] = s["tls"]
+    return it
+
+
 def run_real(bin_path, rscripts, work, out, seed, procs, algs):
     """The real-server scripts, dealt out round robin to `procs` harness processes running side by side (each with
     its own PKI set, chosen by its own seed); the logs are concatenated in a fixed order."""
@@ -363,7 +468,7 @@ def run_real(bin_path, rscripts, work, out, seed, procs, algs):
         with open(cpath, "w") as f:
             for i, s in enumerate(rscripts, 1):
                 if (i - 1) % procs == k:
-                    f.write(json.dumps(dict(ev="rscript", id=i, mtls=s["mtls"], ops=s["ops"]), separators=(",", ":")) + "\n")
+                    f.write(json.dumps(script_item("rscript", i, s), separators=(",", ":")) + "\n")
         parts.append((cpath, os.path.join(work, f"real_log_{k}.ndjson"), int(seed) + 104729 * (k + 1), os.path.join(work, f"pki_r{k}")))
     with concurrent.futures.ThreadPoolExecutor(max_workers=procs) as ex:
         futs = [ex.submit(run_harness, bin_path, c, o, sd, 1, algs, sc, True) for c, o, sd, sc in parts]
@@ -407,6 +512,14 @@ def cell_of(rec):
     return "/".join(str(rec[f]) for f in CELL)
 
 
+def resumption_text(rec):
+    if not rec.get("keep"):
+        return ""
+    return (f" [returning TLS {rec.get('tls')} client (ClientConfig kept since its first connect of the script): "
+            f"{'offered a ticket' if rec.get('offered') else 'had no ticket to offer'}, handshake kind={rec.get('hs_kind') or 'none'}, "
+            f"{rec.get('stored')} ticket(s) stored]")
+
+
 def describe(rec, exp):
     if rec.get("ev") == "case":
         return (f"[{rec['client']} {rec['alg']} {rec['namekind']}] serverCert={rec['serverCert']} nameMatches={rec['nameMatches']} "
@@ -420,7 +533,7 @@ def describe(rec, exp):
         if rec["op"] in ("reload", "rotate"):
             got = f"res={rec.get('res')} to={rec.get('to')} {rec.get('err', '')[:160]}"
         elif rec["op"] == "connect":
-            got = (f"presenting clientCert={rec.get('cc')}{ca}: client hs={rec.get('client_hs')} rt={rec.get('client_rt')} server hs={rec.get('server_hs')} rt={rec.get('server_rt')} "
+            got = (f"presenting clientCert={rec.get('cc')}{resumption_text(rec)}{ca}: client hs={rec.get('client_hs')} rt={rec.get('client_rt')} server hs={rec.get('server_hs')} rt={rec.get('server_rt')} "
                    f"client saw cn={rec.get('seen_cn')!r} serial={rec.get('seen_serial')} mtls={rec.get('mtls')} server saw client cert={rec.get('srv_saw_client_cert')} "
                    f"{rec.get('srv_saw_client_cn')!r} ({str(rec.get('client_err'))[:100]} / {str(rec.get('server_err'))[:100]})")
         else:
@@ -441,7 +554,7 @@ def describe(rec, exp):
             what = f"failed reload no. {rec.get('n')}: key file made unusable, SIGUSR1"
             got = f"res={rec.get('res')} server_main running={rec.get('server_running')}"
         else:
-            what = (f"connect presenting clientCert={rec.get('cc')} (slot {rec['conn']}){ca}" if rec["op"] == "connect" else f"use({rec['conn']})")
+            what = (f"connect presenting clientCert={rec.get('cc')}{resumption_text(rec)} (slot {rec['conn']}){ca}" if rec["op"] == "connect" else f"use({rec['conn']})")
             got = (f"client hs={rec.get('client_hs')} rt={rec.get('client_rt')} http={rec.get('http_status')} {seen} "
                    f"({str(rec.get('client_err'))[:100]})")
         return (f"real-server script {rec['id']} (mtls={rec.get('mtls')}, {rec.get('reloads')} reload(s) so far) step {rec['i']} {what} -> {got}"
@@ -491,8 +604,11 @@ def self_test(work, logs, strict=True):
                 cur.append(None)
     scripts = [sc for sc in scripts if None not in sc]
 
+    def proto(r):
+        return "Some(TLSv1_3)" if r.get("tls", "1.3") == "1.3" else "Some(TLSv1_2)"
+
     def reached(r):
-        return dict(r, http_status=404, client_hs="ok", client_rt="ok", cli_data="verif-c17-not-found", client_err="")
+        return dict(r, http_status=404, client_hs="ok", client_rt="ok", cli_data="verif-c17-not-found", client_err="", proto=proto(r))
 
     def refused(r):
         return dict(r, http_status=0, client_rt="alert", cli_data="", client_err="AlertReceived(CertificateRequired)")
@@ -509,13 +625,49 @@ def self_test(work, logs, strict=True):
     # duplex / client-side lines: both ends are logged
     def both_ok(r, **kw):
         return dict(r, client_hs="ok", server_hs="ok", client_rt="ok", server_rt="ok", cli_data="ping", srv_data="ping",
-                    client_err="", server_err="", **kw)
+                    client_err="", server_err="", proto=proto(r), **kw)
 
     def client_refuses(r):
         return dict(r, client_hs="bad_cert", client_rt="skipped", server_hs="alert", server_rt="skipped", cli_data="", srv_data="",
                     client_err="InvalidCertificate(UnknownIssuer)", seen_cn="", seen_serial=-1, seen_issuer="")
+    def stale_ticket_full(r):
+        """a returning client offered a ticket and went through a full handshake that was served (on an accepted line: the
+        ticket was one from before a reload)"""
+        return r["op"] == "connect" and r.get("keep") and r.get("offered") and not r.get("resumed") and r["seen_serial"] > 100
+
+    def unused(h, r):
+        """the script does not use the connection again (a corrupted identity would make TLC reject the later use as well)"""
+        return not any(o["op"] == "use" and o["conn"] == r["conn"] for o in h["ops"])
+
+    def older(r, **kw):
+        return dict(r, seen_cn=f"srv-v{r['seen_serial'] - 101}", seen_serial=r["seen_serial"] - 1, **kw)
     # name -> (signature TLC must give, corruption(header, record) -> corrupted record | falsy)
     wanted = {
+        # ---- returning clients that resume, real server
+        # a returning client of the RETIRED CA that holds a ticket from before the reload gets in by resumption
+        "real:resumption_admits_retired_client": ("resumption_bypasses_reloaded_client_ca", lambda h, r: real(h, r) and r.get("keep") and r.get("offered")
+                                                  and r["ca_loaded"] > 0 and gen(r) is not None and gen(r) < r["ca_loaded"] and not r["http_status"]
+                                                  and dict(reached(r), resumed=True, hs_kind="resumed", stored=1,
+                                                           seen_cn=f"srv-v{r['reloads'] - 1}", seen_serial=100 + r["reloads"] - 1, seen_issuer="trusted-ca")),
+        # a returning client resumes across a reload and keeps seeing the replaced certificate
+        "real:resumption_shows_retired_identity": ("resumption_shows_retired_identity", lambda h, r: real(h, r) and stale_ticket_full(r) and r["http_status"]
+                                                   and unused(h, r) and older(r, resumed=True, hs_kind="resumed")),
+        # the ticket of a replaced configuration is honoured (whatever else the client reports)
+        "real:ticket_of_retired_configuration_honoured": ("ticket_of_retired_configuration_honoured", lambda h, r: real(h, r) and stale_ticket_full(r)
+                                                          and r["http_status"] and dict(r, resumed=True, hs_kind="resumed")),
+        # the harness's bookkeeping is bound: a client that keeps nothing cannot have resumed
+        "real:resumed_without_offer": ("other:malformed_line", lambda h, r: real(h, r) and not r.get("keep") and r["http_status"]
+                                       and dict(r, resumed=True, hs_kind="resumed")),
+        # ---- the same on the duplex (both ends logged)
+        "duplex:resumption_admits_retired_client": ("resumption_bypasses_reloaded_client_ca", lambda h, r: h["ev"] == "script" and r["op"] == "connect"
+                                                    and r.get("keep") and r.get("offered") and r["ca_loaded"] > 0 and gen(r) is not None
+                                                    and gen(r) < r["ca_loaded"] and r["cli_data"] == "" and r["seen_serial"] > 100
+                                                    and older(both_ok(r, srv_saw_client_cert=True, srv_saw_client_cn="cli-" + r["cc"]),
+                                                              resumed=True, srv_resumed=True, hs_kind="resumed", srv_hs_kind="resumed", stored=1)),
+        "duplex:resumption_shows_retired_identity": ("resumption_shows_retired_identity", lambda h, r: h["ev"] == "script" and stale_ticket_full(r)
+                                                     and r["cli_data"] == "ping" and unused(h, r) and older(r, resumed=True, srv_resumed=True, hs_kind="resumed", srv_hs_kind="resumed")),
+        "duplex:ends_disagree_on_resumption": ("ends_disagree_on_resumption", lambda h, r: h["ev"] == "script" and r["op"] == "connect" and r.get("resumed")
+                                               and r["cli_data"] == "ping" and dict(r, srv_resumed=False, srv_hs_kind="full")),
         # ---- scripts without rotation, real server
         # after a reload the mutual-TLS server serves a client without a certificate under the configured CA
         "reload_drops_client_auth": ("reload_drops_client_auth", lambda h, r: real(h, r) and h["mtls"] and norot(r) and r["reloads"] > 0
@@ -639,8 +791,9 @@ def check(prop, tier, seed, replay):
                 f"72 cells ({dict(mc['by'])}), {len(scripts)} complete scripts ({T['bounds']}), {len(rscripts)} complete "
                 f"real-server scripts ({T['real_bounds']}), of which {mc['rotation']['duplex']['scripts_with_rotation']} / "
                 f"{mc['rotation']['real']['scripts_with_rotation']} with {T['rot_bounds']}, {mc['failed_reload']['scripts_with_failed_reload']} "
-                f"with {T['fail_bounds']}; {len(cscripts)} client-side scripts "
-                f"({T['cli_bounds']}); Undisturbed, Fresh, ConfigKept, CAFollows, JudgedAsConfigured, Authenticated, "
+                f"with {T['fail_bounds']}, {mc['resume']['duplex']['scripts_with_returning_clients']} / "
+                f"{mc['resume']['real']['scripts_with_returning_clients']} with {T['res_bounds']}; {len(cscripts)} client-side scripts "
+                f"({T['cli_bounds']}); Undisturbed, Fresh, ConfigKept, CAFollows, JudgedAsConfigured, TicketsOfThisConfiguration, Authenticated, "
                 f"ClientFollowsRoots hold")
             neg = negative_controls()
             log("[mc] negative controls (wrong reload implementations) caught: " +
@@ -648,10 +801,13 @@ def check(prop, tier, seed, replay):
             # 2. the real code: the matrix with the application's client (TLS 1.3) and, for the cells without
             #    skip-verify, with a reference TLS 1.2 client against the application's server configuration
             # (the real-server scripts run in processes of their own, side by side with the matrix and the duplex scripts)
-            n_rscripts = len(rscripts)
+            # (a script of returning clients is executed once per TLS version of its clients)
+            rscripts_x = with_tls(rscripts, T["res_tls"])
+            scripts_x = with_tls(scripts, T["res_tls"])
+            n_rscripts = len(rscripts_x)
             real_out = os.path.join(work, "real_log.ndjson")
             pool = concurrent.futures.ThreadPoolExecutor(max_workers=1)
-            real_run = pool.submit(run_real, bin_path, rscripts, work, real_out, seed, T["real_procs"], T["algs"])
+            real_run = pool.submit(run_real, bin_path, rscripts_x, work, real_out, seed, T["real_procs"], T["algs"])
             pool.shutdown(wait=False)
             cpath = os.path.join(work, "cases.ndjson")
             with open(cpath, "w") as f:
@@ -670,13 +826,13 @@ def check(prop, tier, seed, replay):
             logs.append(("matrix", out))
             # the duplex scripts and, after them, the client-side scripts: dealt out round robin to script_procs harness
             # processes running side by side (each executes its share with script_sets PKI sets of its own)
-            items = [dict(ev="script", id=i, mtls=s["mtls"], ops=s["ops"]) for i, s in enumerate(scripts, 1)]
+            items = [script_item("script", i, s) for i, s in enumerate(scripts_x, 1)]
             items += [dict(ev="cscript", id=i, ops=s["ops"]) for i, s in enumerate(cscripts, 1)]
-            n_scripts = len(scripts)
+            n_scripts = len(scripts_x)
             n_cscripts = len(cscripts)
             out = os.path.join(work, "scripts_log.ndjson")
             run_split(bin_path, items, work, out, int(seed) + 7919, T["script_sets"], T["script_procs"], T["algs"])
-            want = sum(1 + len(s["ops"]) for s in scripts + cscripts) * T["script_sets"]
+            want = sum(1 + len(s["ops"]) for s in scripts_x + cscripts) * T["script_sets"]
             got = sum(1 for _ in open(out))
             if got != want:
                 raise ToolError(f"tls_matrix logged {got} lines for {want} script lines")
@@ -730,6 +886,7 @@ def check(prop, tier, seed, replay):
                         executed[f"real:{rec['op']}_after_failed_reload"] += 1
                     outcome[("real", "mtls" if rec.get("mtls") else "plain", "after-reload" if rec.get("reloads") else "before-reload", rec["op"], cls)] += 1
                     executed.update(rotation_situations("real", rec, bool(rec.get("http_status"))))
+                    executed.update(resume_situations("real", rec, bool(rec.get("http_status"))))
                     if script_ok is not None:
                         if i in badset:
                             script_ok[1] = False
@@ -737,7 +894,7 @@ def check(prop, tier, seed, replay):
                             script_ok[2] = True
                         elif script_ok[1] and script_ok[2]:
                             h = script_ok[0]
-                            nontrivial.add(("rscript", json.dumps(h["ops"]), h["mtls"], h["alg"], h["namekind"], h["pki"]))
+                            nontrivial.add(("rscript", json.dumps(h["ops"]), h["mtls"], h.get("tls"), h["alg"], h["namekind"], h["pki"]))
                             if (rec["op"] == "connect" and rec.get("mtls") and not rec.get("http_status")
                                     and not any(s.get("ev") == "rstep" for s in samples)):
                                 samples.append(rec)
@@ -746,6 +903,7 @@ def check(prop, tier, seed, replay):
                 elif rec["ev"] == "step":
                     outcome[("script", rec["op"], rec.get("client_rt", rec.get("res")))] += 1
                     executed.update(rotation_situations("duplex", rec, rec.get("cli_data") == "ping" and rec.get("srv_data") == "ping"))
+                    executed.update(resume_situations("duplex", rec, rec.get("cli_data") == "ping" and rec.get("srv_data") == "ping"))
                     if script_ok is not None:
                         if i in badset:
                             script_ok[1] = False
@@ -753,7 +911,7 @@ def check(prop, tier, seed, replay):
                             script_ok[2] = True
                         elif script_ok[1] and script_ok[2]:
                             h = script_ok[0]
-                            nontrivial.add(("script", json.dumps(h["ops"]), h["mtls"], h["alg"], h["namekind"], h["pki"]))
+                            nontrivial.add(("script", json.dumps(h["ops"]), h["mtls"], h.get("tls"), h["alg"], h["namekind"], h["pki"]))
                             if rec["op"] == "use" and not any(s.get("ev") == "step" for s in samples):
                                 samples.append(rec)
                 elif rec["ev"] == "cscript":
@@ -785,8 +943,12 @@ def check(prop, tier, seed, replay):
                                                                     "new_client_before_reload", "old_client_before_reload")]
             need += ["client:retired_roots_server_refused", "client:new_roots_server_accepted",
                      "real:reload_after_failed_reload", "real:connect_after_failed_reload", "real:use_after_failed_reload"]
+            # the returning clients really got tickets, really offered them, resumed within a generation and were pushed
+            # through a full handshake (admitted / refused) after a reload - in every TLS version
+            need += [f"{k}:tls{v}:{x}" for k in ("duplex", "real") for v in T["res_tls"]
+                     for x in ("tickets_stored", "resumed", "offered_but_full_handshake_admitted", "offered_but_refused")]
             if not rejected and any(executed[k] == 0 for k in need):
-                raise ToolError(f"vacuous run: rotation situations not executed: {[k for k in need if executed[k] == 0]}")
+                raise ToolError(f"vacuous run: rotation / resumption situations not executed: {[k for k in need if executed[k] == 0]}")
             st = self_test(work, [badsets["real"], badsets["scripts"]], strict=not rejected)
             log(f"[selftest] {len(st)} hand-corrupted copies of accepted script lines rejected by TLC: " + ", ".join(sorted(set(st.values()))))
         # 4. verdict
@@ -830,7 +992,8 @@ def check(prop, tier, seed, replay):
                      "mTLS flag and PKI set, in which a handshake or a use of an established connection follows a reload; "
                      "(c) accepted real-server scripts (server_main + SIGUSR1 over loopback TCP), counted the same way; "
                      "(d) accepted client-side scripts, distinct by operations and PKI set, in which a connection follows a "
-                     "replacement of the roots file",
+                     "replacement of the roots file; the scripts of returning clients that resume are among (b) and (c), distinct "
+                     "also by the TLS version of their clients",
                 samples=samples or [dict(note="no accepted line in this run")],
                 model_checking_runs=[dict(config=T["cfg"], distinct_states=mc["distinct"], states_generated=mc["generated"],
                                           wall_s=round(mc["wall"], 1))],
@@ -844,6 +1007,8 @@ def check(prop, tier, seed, replay):
                 rotation_script_bounds=T["rot_bounds"], rotation_scripts_by_content=mc["rotation"],
                 failed_reload_script_bounds=T["fail_bounds"], failed_reload_scripts_by_content=mc["failed_reload"],
                 client_side_scripts=n_cscripts, client_side_script_bounds=T["cli_bounds"], client_side_scripts_by_content=mc["client"],
+                returning_client_script_bounds=T["res_bounds"], returning_client_scripts_by_content=mc["resume"],
+                returning_client_tls_versions=list(T["res_tls"]),
                 rotation_situations_executed=dict(sorted(executed.items())),
                 scripts_with_connect_after_reload=mc["connect_after_reload"],
                 scripts_with_use_after_reload=mc["use_after_reload"],
@@ -876,7 +1041,24 @@ def check(prop, tier, seed, replay):
                             "process) connect clients of every generation before the rotation, between rotation and reload and "
                             "after the reload. Client side: one process, one roots file (roots_live.pem) replaced in place between "
                             "calls of tls_connect; every connection must be validated against what the file holds then "
-                            "(ClientFollowsRoots; negative control 'staleroots')",
+                            "(ClientFollowsRoots; negative control 'staleroots'). Returning clients that resume: the machine "
+                            "carries the tickets clients hold, each issued by an admitted handshake under one identity and one "
+                            "client-CA generation; a connect may offer them (ConnectWith), and a ticket may be honoured only under "
+                            "the configuration that issued it (Honours / Usable): a handshake after a reload is judged by the "
+                            "configuration in force and sees the new certificate whether or not a ticket is offered, while "
+                            "resumption within one generation is allowed (Fresh, Authenticated, JudgedAsConfigured over every "
+                            "offer, TicketsOfThisConfiguration; negative control 'sharedcache': one session cache for the life of "
+                            "the process, caught four ways). The scripts of returning clients (kinds res / rres) are executed on "
+                            "the duplex and through server_main + SIGUSR1 with raw rustls clients of the harness whose ClientConfig "
+                            "(resumption store) is kept for the whole script, one per client certificate, once speaking TLS 1.3 "
+                            "and once TLS 1.2; every connect line logs whether the client's store handed out a ticket (offered), "
+                            "how many it took in (stored), rustls's handshake_kind() of both ends (resumed), the certificate the "
+                            "client reports (serial, subject, issuer, SHA-1 fingerprint); TLC accepts a resumption only with a "
+                            "ticket of the configuration in force and judges outcome and identity of a resumed handshake like any "
+                            "other (signatures resumption_bypasses_reloaded_client_ca, resumption_shows_retired_identity, "
+                            "ticket_of_retired_configuration_honoured); the run is vacuous (tool error) unless tickets were "
+                            "stored, offered, resumed within a generation and pushed through a full handshake after a reload in "
+                            "each TLS version",
             )
             vlib.write_evidence(prop, tier, seed, coverage, wall, sum(v[2] for v in violations), assumptions=[
                 "thin use of TLA+: a decision table and a small state machine serve as the reference decision procedure; "
@@ -913,6 +1095,14 @@ def check(prop, tier, seed, replay):
                 "CAs with other keys and subjects (no cross-signing, no bundles holding two generations)",
                 "client side: the roots replaced in place are exercised with tls_connect over a duplex in one process; the "
                 "reconnect loop of the client (client/mod.rs) calling it is not",
+                "returning clients: the application's own client never resumes (tls_connect builds a ClientConfig per "
+                "connection), so the clients that do are raw rustls clients of the harness (same roots and client certificate "
+                "files, ALPN http/1.1, one protocol version each); a client is identified with the certificate it presents, its "
+                "state lives for one script; the machine lets a client offer any ticket it holds while the rustls client offers "
+                "the most recent one (TLS 1.3 tickets are single use, two are issued per handshake); stateless tickets (a "
+                "ticketer), 0-RTT data, ticket lifetime / expiry, eviction from a full session cache, resumption across a FAILED "
+                "reload (the configuration is unchanged, it would be allowed) and the ACME reload path are not exercised; on "
+                "the real server only the client end of a resumption is observable",
             ])
         if violations:
             for path, sig, n in violations:
